@@ -65,7 +65,7 @@ def scratch_dir(prefix="tle"):
     return tempfile.mkdtemp(prefix=prefix, dir=SHM)
 
 
-def run_tlexport(files, argv, child_setup=None, cpu=60, wall=900, cwd=None, outnames=("out.pcapng",), keep_dir=None):
+def run_tlexport(files, argv, child_setup=None, cpu=60, wall=900, cwd=None, outnames=("out.pcapng",), keep_dir=None, earlier_may_fail=False):
     """files: name -> bytes, written into a private scratch dir; argv: list of arguments, or a list of such lists
     (run() is then called once per list in the *same* child, for in-process repetition).  '{dir}' in an argument is
     replaced by the scratch directory.
@@ -102,9 +102,15 @@ def run_tlexport(files, argv, child_setup=None, cpu=60, wall=900, cwd=None, outn
                 cbase = cover.child_base()
                 code = 0
                 try:
-                    for r in runs:
+                    for ri, r in enumerate(runs):
                         sys.argv = ["tlexport"] + list(r)
-                        tmain.run()
+                        if earlier_may_fail and ri < len(runs) - 1:
+                            try:                    # an earlier run of the same process that ends in an exception or exit(): the later run must not notice
+                                tmain.run()
+                            except BaseException as e0:
+                                sys.stderr.write(f"[earlier run {ri} ended with {type(e0).__name__}: {e0}]\n")
+                        else:
+                            tmain.run()
                 except SystemExit as e:
                     c = 3 if e.code is None else (e.code if isinstance(e.code, int) else 4)
                     code = 100 + (c & 0x3F)
